@@ -105,7 +105,7 @@ impl ScriptStack for Vec<Vec<u8>> {
     fn push_bool(&mut self, boolean: bool) -> Result<(), InterpreterError> {
         let data = match boolean {
             true => vec![1],
-            false => vec![0],
+            false => vec![],
         };
 
         self.push(data);
